@@ -1567,3 +1567,19 @@ def _tail_text_kept(repo, ob, failure):
 GENERATORS.insert(0, ("C16.tail.", _tail_text_kept))
 GENERATORS.insert(0, ("C19.tail.", _tail_text_kept))
 GENERATORS.insert(0, ("C03.tail.", _tail_text_kept))
+
+
+def _clipped_shape_stays_resolved(repo, ob, failure):
+    """a clipped shape written with shorthand can be referenced afterwards (its registered copy is the resolved element)"""
+    docs = ['<svg><clipPath id="c"><rect xy="0" wh="5"/></clipPath><rect id="a" xy="0" wh="20 10" clip-path="url(#c)"/><use href="#a" x="50" y="0"/></svg>',
+            '<svg><clipPath id="cp"><rect xy="0" wh="8"/></clipPath><circle id="c" cxy="0" r="10" clip-path="url(#cp)"/><rect inside="#c"/></svg>']
+    for doc in docs:
+        r = run_svgdx(repo, doc, args=("--no-auto-styles",))
+        if r["rc"] != 0:
+            return {"input": doc, "args": ["--no-auto-styles"], "observed": r["err"].strip()[-200:], "expected": "a document: the clipped element is resolved and has a box"}
+    return None
+
+
+GENERATORS.insert(0, ("C08.clip.registered", _clipped_shape_stays_resolved))
+GENERATORS.insert(0, ("C10.clip.registered", _clipped_shape_stays_resolved))
+GENERATORS.insert(0, ("C12.clip.registered", _clipped_shape_stays_resolved))
